@@ -257,14 +257,15 @@ var vpRadii = []float64{0, 0.5, 1, math.Sqrt(2), 2, 5}
 var vpExactRadii = []float64{0, 0.5, 1, 2, 5}
 
 type vpStats struct {
-	sw          sweepStats
-	trees       int64
-	pruned      int64
-	maxDepth    int
-	knownIdent  int64
-	knownMsg    string
-	identBroken bool // the tree just built shows the known identity defect
-	onlyKnown   bool
+	sw           sweepStats
+	trees        int64
+	pruned       int64
+	maxDepth     int
+	knownIdent   int64
+	knownMsg     string
+	randomShapes bool // a build with the global source took part: keep the outcome classes deterministic
+	identBroken  bool // the tree just built shows the known identity defect
+	onlyKnown    bool
 }
 
 func vpRun(t *vlib.T, stock bool, pts [][]float64, effort int, src rand.Source, queries [][]float64, ks []int, st *vpStats, lite bool, ctx string) {
@@ -334,7 +335,10 @@ func (st *vpStats) report(t *vlib.T, n int) {
 	t.Count("vp_distkeeper_point_on_radius", st.sw.radiusOnBoundary)
 	t.Count("vp_trees_with_pruned_search", st.pruned)
 	t.Max("vp_depth", int64(st.maxDepth))
-	o := fmt.Sprintf("n=%d depth=%d", n, st.maxDepth)
+	o := fmt.Sprintf("n=%d", n)
+	if !st.randomShapes {
+		o += fmt.Sprintf(" depth=%d", st.maxDepth)
+	}
 	if st.pruned > 0 {
 		o += " pruned"
 	}
